@@ -44,6 +44,7 @@ class State:
 
     def bad(self, key, what, replay):
         # a violation that matches a known finding is reported as such and must not mask anything else
+        replay = {('cipher_key' if k == 'key' else k): v for k, v in replay.items()}     # vlib stores the finding key under 'key'
         if self.ctx.violation(key, what, replay, found_input=True):
             self.found = True
 
@@ -145,7 +146,7 @@ Definition chk_spec (c : CT) : bool :=
 ''' % T)
     sec.fns = [('chk_model', 'model', 'chacha20:model-vs-impl'), ('chk_spec', 'spec', 'chacha20:coqspec-vs-impl')]
     cases = []
-    for L in lens_blocks(rng, 64, 5, extra=() if quick else range(0, 330, 7)):
+    for L in ([0, 1, 63, 64, 65, 127, 128, 129, 200, 320] if quick else lens_blocks(rng, 64, 5, extra=range(0, 330, 7))):
         for k in range(2 if quick else 4):
             counter = rng.choice([0, 1, 1, 2, 7, 2**32 - 6, 2**31, rng.getrandbits(32) % (2**32 - 8)])
             cases.append((rbytes(rng, 32), rbytes(rng, 12), counter, rbytes(rng, L)))
@@ -281,7 +282,7 @@ Definition chk_spec (c : CT) : bool :=
     sec.fns = [('chk_model', 'model', 'chacha20poly1305:model-vs-impl'), ('chk_spec', 'spec', 'chacha20poly1305:coqspec-vs-impl')]
     n_ossl = 0
     cases = []
-    for L in lens_blocks(rng, 64, 3 if quick else 5, extra=(16, 15, 17)):
+    for L in ([0, 1, 63, 64, 65, 130] if quick else lens_blocks(rng, 64, 5, extra=(16, 15, 17))):
         for al in ([0, 13] if quick else [0, 1, 5, 13, 16, 17, 32, 40]):
             cases.append((32, 12, L, al, rng.choice(AEAD_MUTS)))
     for m in AEAD_MUTS:
@@ -498,7 +499,7 @@ def sec_kdf(S, quick):
     # ---- P_hash and the PRFs
     for alg in ['md5', 'sha1', 'sha256', 'sha384']:
         ds = ALG_DS[alg]
-        for n in [0, 1, ds - 1, ds, ds + 1, 2 * ds, 5 * ds + 3, 136] + ([] if quick else [12, 48, 3 * ds, 1000]):
+        for n in ([0, 1, ds, ds + 1, 5 * ds + 3] if quick else [0, 1, ds - 1, ds, ds + 1, 2 * ds, 5 * ds + 3, 136, 12, 48, 3 * ds, 1000]):
             secret, seed = rbytes(rng, rng.choice([0, 1, 24, 48, 64, 65, 200])), rbytes(rng, rng.choice([0, 13, 77]))
             runs = both_modes(lambda: bytes(mathtls.P_hash(alg, bytearray(secret), bytearray(seed), n)))
             meta = {'unit': 'p_hash', 'alg': alg, 'secret': secret.hex(), 'seed': seed.hex(), 'n': n}
@@ -509,8 +510,8 @@ def sec_kdf(S, quick):
             for mode, v, code, table in runs:
                 add('P_hash @O %s %s %s %d' % (slit(alg), blit(secret), blit(seed), n), mode, v, code, table, meta,
                     'list_eqb (p_hash_rfc @O %s %d %s %s %d) @V' % (slit(alg), ds, blit(secret), blit(seed), n))
-    for n in [0, 12, 48, 104, 136] + ([] if quick else [1, 15, 16, 17, 19, 20, 21, 500]):
-        for sl in [0, 1, 2, 47, 48, 49]:
+    for n in ([0, 12, 48, 104] if quick else [0, 12, 48, 104, 136, 1, 15, 16, 17, 19, 20, 21, 500]):
+        for sl in ([0, 1, 48, 49] if quick else [0, 1, 2, 47, 48, 49]):
             secret, label, seed = rbytes(rng, sl), rng.choice(list(PURPOSES.values())), rbytes(rng, rng.choice([0, 36, 64]))
             for fn, alg in (('PRF', 'md5sha1'), ('PRF_1_2', 'sha256'), ('PRF_1_2_SHA384', 'sha384')):
                 if fn != 'PRF' and sl not in (0, 48, 49):
@@ -798,7 +799,7 @@ def sec_modes(S, quick):
                     S.bad('rc4:decrypt(encrypt)!=id', 'Python_RC4 decrypt does not invert encrypt across calls',
                           {'unit': 'rc4', 'key': key.hex(), 'msg': m.hex(), 'splits': [off, off2]})
                 ctx.count('modes:impl-vs-rfc-python', 1, [cls])
-                if off2 in (off, len(m)) and (off % 7 == 0 or off == len(m)):
+                if off2 in (off, len(m)) and (off % 7 == 0 or off == len(m)) and (not quick or len(m) in (0, 1, 17)):
                     st0 = ref.rc4_init(key)
                     sec.add('match rc4_init %s with Ok st => rc4_calls st %s | Err _ => false end && rc4_spec_calls (rc4_ksa %s, 0, 0) %s' % (
                         blit(key), call_lit(calls), blit(key), call_lit(calls)), {'unit': 'rc4', 'key': key.hex(), 'msg': m.hex(), 'splits': [off, off2]})
@@ -1197,35 +1198,86 @@ def run(ctx):
 
 
 def replay(ctx, path):
+    """re-runs the failing input of a replay file against $VERIF_REPO; exit 0 iff the implementation now agrees with the reference"""
     import json
     with open(path) as f:
         r = json.load(f)
-    print(json.dumps({k: v for k, v in r.items() if k != 'log_tail'}, indent=1)[:3000])
+    print(json.dumps({k: (v if len(str(v)) < 300 else str(v)[:300] + '...') for k, v in r.items() if k != 'log_tail'}, indent=1))
     u = r.get('unit')
     H = bytes.fromhex
+    K = H(r['cipher_key']) if isinstance(r.get('cipher_key'), str) else None
     if u == 'poly1305':
         from tlslite.utils.poly1305 import Poly1305
-        v, code = runf(lambda: bytes(Poly1305(bytearray(H(r['key']))).create_tag(bytearray(H(r['msg'])))))
-        want = ref.poly1305(H(r['key']), H(r['msg'])) if len(H(r['key'])) == 32 else None
-        print('impl:', hexs(v), code, 'rfc:', hexs(want))
-        return 0 if v == want else 1
-    if u == 'chacha':
+        v, code = runf(lambda: bytes(Poly1305(bytearray(K)).create_tag(bytearray(H(r['msg'])))))
+        want = ref.poly1305(K, H(r['msg'])) if len(K) == 32 else None
+    elif u == 'chacha':
         from tlslite.utils.chacha import ChaCha
-        v, code = runf(lambda: bytes(ChaCha(bytearray(H(r['key'])), bytearray(H(r['nonce'])), r['counter']).encrypt(bytearray(H(r['pt'])))))
-        want = ref.chacha20_encrypt(H(r['key']), r['counter'], H(r['nonce']), H(r['pt']))
-        print('impl:', hexs(v), code, 'rfc:', want.hex())
-        return 0 if v == want else 1
-    if u == 'chachapoly':
+        v, code = runf(lambda: bytes(ChaCha(bytearray(K), bytearray(H(r['nonce'])), r['counter']).encrypt(bytearray(H(r['pt'])))))
+        want = ref.chacha20_encrypt(K, r['counter'], H(r['nonce']), H(r['pt']))
+    elif u == 'chachapoly':
         from tlslite.utils.chacha20_poly1305 import CHACHA20_POLY1305
-        obj = CHACHA20_POLY1305(bytearray(H(r['key'])), 'python')
+        obj = CHACHA20_POLY1305(bytearray(K), 'python')
         if 'c' in r:
             v, code = runf(lambda: obj.open(bytearray(H(r['nonce'])), bytearray(H(r['c'])), bytearray(H(r['aad']))))
-            want = ref.aead_chacha_open(H(r['key']), H(r['nonce']), H(r['c']), H(r['aad']))
+            want = ref.aead_chacha_open(K, H(r['nonce']), H(r['c']), H(r['aad']))
             v = None if v is None else bytes(v)
         else:
             v, code = runf(lambda: bytes(obj.seal(bytearray(H(r['nonce'])), bytearray(H(r['pt'])), bytearray(H(r['aad'])))))
-            want = ref.aead_chacha_seal(H(r['key']), H(r['nonce']), H(r['pt']), H(r['aad']))
-        print('impl:', hexs(v), code, 'rfc:', hexs(want))
-        return 0 if v == want else 1
-    print('nothing to re-run for this replay file (proof/tie breakage): see "what"')
-    return 1
+            want = ref.aead_chacha_seal(K, H(r['nonce']), H(r['pt']), H(r['aad']))
+    elif u == 'hkdf_expand':
+        from tlslite.utils import cryptomath
+        v, code = runf(lambda: bytes(cryptomath.HKDF_expand(bytearray(H(r['prk'])), bytearray(H(r['info'])), r['L'], r['alg'])))
+        want = ref.hkdf_expand(H(r['prk']), H(r['info']), r['L'], r['alg'])
+    elif u == 'hkdf_expand_label':
+        from tlslite.utils import cryptomath
+        v, code = runf(lambda: bytes(cryptomath.HKDF_expand_label(bytearray(H(r['secret'])), bytearray(H(r['label'])),
+                                                                  bytearray(H(r['context'])), r['L'], r['alg'])))
+        want = ref.hkdf_expand_label(H(r['secret']), H(r['label']), H(r['context']), r['L'], r['alg'])
+    elif u in ('p_hash', 'PRF', 'PRF_1_2', 'PRF_1_2_SHA384', 'PRF_SSL'):
+        from tlslite import mathtls
+        sec, seed, n = H(r['secret']), H(r['seed']), r['n']
+        if u == 'p_hash':
+            v, code = runf(lambda: bytes(mathtls.P_hash(r['alg'], bytearray(sec), bytearray(seed), n)))
+            want = ref.p_hash(r['alg'], sec, seed, n)
+        elif u == 'PRF_SSL':
+            v, code = runf(lambda: bytes(mathtls.PRF_SSL(bytearray(sec), bytearray(seed), n)))
+            want = ref.prf_ssl3(sec, seed, n)
+        else:
+            lab = H(r['label'])
+            v, code = runf(lambda: bytes(getattr(mathtls, u)(bytearray(sec), bytearray(lab), bytearray(seed), n)))
+            want = ref.prf_tls10(sec, lab, seed, n) if u == 'PRF' else ref.prf_tls12('sha256' if u == 'PRF_1_2' else 'sha384', sec, lab, seed, n)
+    elif u == 'ctr':
+        from tlslite.utils import python_aes
+        obj = python_aes.new(bytearray(K), 6, bytearray(H(r['iv'])))
+        m, off = H(r['msg']), r.get('split', 0)
+        v = bytes(obj.encrypt(bytearray(m[:off]))) + bytes(obj.encrypt(bytearray(m[off:])))
+        code = 0
+        want = ref.ossl_ctr(K, H(r['iv']) + bytes(16 - len(H(r['iv']))), m) if m else b''
+    elif u == 'rc4':
+        from tlslite.utils import python_rc4
+        obj = python_rc4.new(bytearray(K))
+        m, (o1, o2) = H(r['msg']), r['splits']
+        v = b''.join(bytes(obj.encrypt(bytearray(x))) for x in (m[:o1], m[o1:o2], m[o2:]))
+        code = 0
+        want = ref.rc4_crypt(ref.rc4_init(K), m)
+    elif u == 'cbc':
+        from tlslite.utils import python_aes
+        obj = python_aes.new(bytearray(K), 2, bytearray(H(r['iv'])))
+        m, (a, b) = H(r['msg']), r['splits']
+        v = b''.join(bytes(obj.encrypt(bytearray(x))) for x in (m[:16 * a], m[16 * a:16 * b], m[16 * b:]))
+        code = 0
+        want = ref.ossl_cbc('aes-%d-cbc' % (len(K) * 8), K, H(r['iv']), m) if m else b''
+    elif u in ('gcm', 'ccm', 'ccm8') and not r.get('toy') and 'impl' in r and 'spec' in r and 'c2' not in r and not str(r.get('aad', '')).startswith('len='):
+        from tlslite.utils import python_aesgcm, python_aesccm
+        obj = python_aesgcm.new(bytearray(K)) if u == 'gcm' else python_aesccm.new(bytearray(K), 16 if u == 'ccm' else 8)
+        v, code = runf(lambda: bytes(obj.seal(bytearray(H(r['nonce'])), bytearray(H(r['pt'])), bytearray(H(r['aad'])))))
+        ecb = lambda b: ref.aes_ecb(K, b)      # noqa: E731
+        want = ref.gcm_seal(ecb, H(r['nonce']), H(r['pt']), H(r['aad'])) if u == 'gcm' else \
+            ref.ccm_seal(ecb, 16 if u == 'ccm' else 8, H(r['nonce']), H(r['pt']), H(r['aad']))
+    else:
+        print('this replay file names a proof obligation / correspondence that no longer checks, or a unit without a one-call '
+              're-run; see "what" and re-run ./check C09')
+        return 1
+    print('impl:', hexs(v), 'code', code)
+    print('spec:', hexs(want))
+    return 0 if v == want else 1
